@@ -158,6 +158,8 @@ func (g *Gen) topts() TOpts {
 		if r.P(1, 3) {
 			// values that hold other parameters' placeholders: the substitution order shows in the message
 			o.Params = [][2]string{{"min", "{{z}}"}, {"z", "{{min}}"}, {"max", "{{z}}"}, {"len", "{{a}}"}, {"a", "{{len}}{{z}}"}, {"gt", "{{z}}"}, {"lt", "{{a}}"}}
+			// …for every number of parameters from two up (a formatter may treat small maps specially)
+			o.Params = o.Params[:rng.Pick(r, []int{2, 2, 3, 4, 5, 7})]
 		}
 	}
 	return o
@@ -191,6 +193,14 @@ func (g *Gen) smallFloat() float64 {
 }
 
 func (g *Gen) aTime() time.Time {
+	if g.R.P(1, 8) {
+		// instants far from the epoch, on both sides of the range an int64 of nanoseconds can hold
+		// (1677-09-21 .. 2262-04-11): "never expires" sentinels, historical dates
+		return rng.Pick(g.R, []time.Time{
+			time.Date(9999, 12, 31, 23, 59, 59, 0, time.UTC), time.Date(3000, 1, 1, 0, 0, 0, 0, time.UTC), time.Date(2262, 4, 11, 23, 47, 16, 0, time.UTC),
+			time.Date(2262, 4, 12, 0, 0, 0, 0, time.UTC), time.Date(1677, 9, 21, 0, 12, 43, 0, time.UTC), time.Date(1677, 9, 20, 0, 0, 0, 0, time.UTC),
+			time.Date(1000, 6, 1, 12, 0, 0, 0, time.UTC), time.Date(1, 1, 2, 0, 0, 0, 0, time.UTC)})
+	}
 	return time.Unix(int64(g.R.Range(0, 8))*86400*365, 0).UTC()
 }
 
@@ -484,7 +494,7 @@ func (g *Gen) NodeOf(kind string, depth int) *Node {
 	n := &Node{Kind: kind}
 	switch kind {
 	case "prim":
-		n.PK = rng.Pick(r, []string{"str", "str", "str", "int", "int", "int", "bool", "i32", "i64", "f64", "f64", "time"})
+		n.PK = rng.Pick(r, []string{"str", "str", "str", "int", "int", "int", "bool", "i32", "i64", "f64", "f64", "f32", "time"})
 		if g.NearSuccess {
 			n.PK = rng.Pick(r, []string{"str", "int", "int", "bool"})
 			if r.P(1, 2) {
@@ -533,6 +543,16 @@ func (g *Gen) NodeOf(kind string, depth int) *Node {
 				n.Coercer = "sfx"
 			case "bool":
 				n.Coercer = "yn"
+			case "i64":
+				n.Coercer = "len64"
+			case "i32":
+				n.Coercer = "len32"
+			case "f64":
+				n.Coercer = "const25"
+			case "f32":
+				n.Coercer = "const25f"
+			case "time":
+				n.Coercer, n.Layout = "epoch1", ""
 			}
 		}
 	case "slice":
@@ -770,6 +790,12 @@ func (g *Gen) Input(n *Node) V {
 		if n.Coercer == "yn" && r.P(1, 2) {
 			return VStr(rng.Pick(r, []string{"y", "n", "y", "Y"}))
 		}
+		switch n.Coercer {
+		case "len64", "len32", "const25", "const25f", "epoch1":
+			if r.P(2, 3) {
+				return VStr(rng.Pick(r, strPoolNonBlank))
+			}
+		}
 		switch n.PK {
 		case "str":
 			return rng.Pick(r, []V{VStr(rng.Pick(r, strPool)), VStr(rng.Pick(r, strPool)), VStr(rng.Pick(r, strPool)), VInt(g.smallInt()), VBool(r.P(1, 2)), VF64(g.smallFloat()),
@@ -797,6 +823,10 @@ func (g *Gen) Input(n *Node) V {
 	case "slice":
 		if n.Coercer == "csv" && r.P(1, 2) {
 			return VStr(rng.Pick(r, []string{"a,b", "1,2,3", "x", ",", "true,n,y", "10, 20"}))
+		}
+		if n.Coercer == "csv" && r.P(1, 5) {
+			// what the custom coercer rejects: its error becomes the node's coerce issue
+			return rng.Pick(r, []V{VInt(5), VBool(true), VF64(1.5)})
 		}
 		if r.P(8, 100) {
 			// scalar gets boxed
